@@ -1,0 +1,23 @@
+//go:build verif
+// +build verif
+
+package capnp
+
+// VerifRefs returns the number of open Clients that reference the same
+// capability as c (the hook's reference count), or 0 for a nil, released
+// or null client.  Read-only; used by the verification harness in /verif
+// to observe that a capability copied into another message holds its own
+// reference.
+func (c *Client) VerifRefs() int {
+	if c == nil {
+		return 0
+	}
+	c.mu.Lock()
+	defer c.mu.Unlock()
+	if c.h == nil {
+		return 0
+	}
+	c.h.mu.Lock()
+	defer c.h.mu.Unlock()
+	return c.h.refs
+}
